@@ -233,15 +233,24 @@ def run_shard(spec, res):
                             nrec, len(data), shape, len(st['records']), st['error'], st['stuck'], len(bk['records']), bk['error']), {'records': nrec, 'shape': shape, 'leg': 'many-records'}, finding=None)
                     n = len(data)
                     parts = [[n], [65536] * (n // 65536) + ([n % 65536] if n % 65536 else []), [n // 2, n - n // 2], [10, n - 10], [n - 7, 7]]
-                    for asyncd in (False, True):
-                        c = {'bytes_hex': data.hex(), 'encoding': 'utf-8', 'delim': ',', 'policy': 'quoted_rfc', 'comment_prefix': None, 'has_header': False, 'partitions': parts, 'async_delivery': asyncd}
+                    for asyncd in (False, True, 'lagging'):
+                        c = {'bytes_hex': data.hex(), 'encoding': 'utf-8', 'delim': ',', 'policy': 'quoted_rfc', 'comment_prefix': None, 'has_header': False, 'partitions': parts, 'async_delivery': bool(asyncd)}
+                        if asyncd == 'lagging':
+                            # chunks of a few hundred bytes, one per event-loop turn, to a consumer that yields every few records: the backlog between
+                            # producer and consumer grows to tens and hundreds of records and drains again, many times over
+                            if nrec > 9000:
+                                continue
+                            csz = rng.choice([150, 333, 1000])
+                            c['partitions'] = [[csz] * (n // csz) + ([n % csz] if n % csz else [])]
+                            c['consumer_pause_every'] = rng.choice([1, 2, 5])
+                            res.count('many_record_runs_lagging_consumer')
                         o2 = node.call({'op': 'stream_vs_bulk', 'cases': [c]})
                         res.count('many_record_runs', o2['runs'])
                         for mm in o2['mismatches']:
                             mm['case'] = dict(mm['case'], bytes_hex=mm['case']['bytes_hex'][:200])
                             for side in ('stream', 'bulk'):
                                 mm[side] = dict(mm[side], records='%d records' % len(mm[side].get('records') or []))
-                        report(res, o2, 'many-records(%d,%s,%s)' % (nrec, shape, 'async' if asyncd else 'sync'))
+                        report(res, o2, 'many-records(%d,%s,%s)' % (nrec, shape, {False: 'sync', True: 'async', 'lagging': 'async, lagging consumer'}[asyncd]))
             res.sample({'bigfile': '64 KiB +/- 3 bytes with a multi-byte character / CRLF / multi-line record straddling the default chunk boundary; 200 KiB file'})
         elif kind == 'random':
             alpha = ['a', 'b', '"', '"', ',', ',', '\n', '\r', '\r\n', '#', ' ', 'é', '€', '😀', '""', '\ufffd', '\uffff', '\u0800']
@@ -259,6 +268,10 @@ def run_shard(spec, res):
                     parts.append(lens)
                 cases.append({'bytes_hex': data.hex(), 'encoding': 'utf-8', 'delim': rng.choice([',', ',', ' ', '""'[:0] or ';']), 'policy': rng.choice(POLICIES),
                               'comment_prefix': rng.choice([None, '#']), 'has_header': rng.random() < 0.3, 'partitions': parts, 'async_delivery': rng.random() < 0.5})
+                # a third of the asynchronously delivered cases are read by a consumer that yields to the event loop every so many records
+                if cases[-1]['async_delivery'] and rng.random() < 0.6:
+                    cases[-1]['consumer_pause_every'] = rng.choice([1, 2, 3])
+                    res.count('random_cases_with_lagging_consumer')
                 res.nontrivial('rnd', text)
             out = node.call({'op': 'stream_vs_bulk', 'cases': cases})
             report(res, out, 'random')
@@ -274,7 +287,7 @@ def summarize(tier, seed, m):
     return {
         'rule': 'every input of 1..%d bytes over {a, quote, comma, LF, CR, #} x all 2^(n-1) chunkings x policies {simple, quoted, quoted_rfc} x comment prefix {none, #} (utf-8 and binary), header on for n <= 4; %d UTF-8 samples with 2-, 3-, 4-byte characters and a leading BOM cut at every byte (all chunkings for samples up to 14 bytes in the quick tier / 18 bytes in the thorough tier; for longer samples every 1- and 2-cut chunking (thorough: also 3-cut and 20000 random chunkings) and byte-by-byte delivery); truncated / invalid sequences (both modes must reject); two stream iterators alive at the same time (the first chunk of the first cut at every byte offset, the second read completely in between), each compared with the bulk reading of its own content; files around the 64 KiB default chunk size through fs.createReadStream; files of 5000-150000 short records (down to two bytes per line: more than 20000 records per chunk) (thousands per chunk: the record queue grows in bursts) through fs.createReadStream, as one chunk, as 64 KiB chunks and with odd first / last chunks, delivered synchronously and one chunk per event-loop turn; random longer inputs. distinct_nontrivial = (input, configuration) pairs containing a line break, a quote or a multi-byte character.' % (MAXLEN[tier], len(utf8_samples())),
         'exhaustive': True,
-        'required': ['many_record_runs', 'overlap_runs', 'stream_runs', 'bulk_runs', 'utf8_sample_runs', 'bigfile_runs', 'faithful_delivery_traces'],
+        'required': ['many_record_runs', 'many_record_runs_lagging_consumer', 'random_cases_with_lagging_consumer', 'overlap_runs', 'stream_runs', 'bulk_runs', 'utf8_sample_runs', 'bigfile_runs', 'faithful_delivery_traces'],
         'assumptions': ['the bulk reader is the reference for what the file contains (C18 ties it to the Python reader)',
                         'a reader is reported stuck when its promise is still pending 200 event-loop turns after the stream ended (logical time)'],
     }
